@@ -33,15 +33,17 @@ DESC = {
 extra = os.path.join(os.path.dirname(os.path.abspath(__file__)), "seeded_desc_extra.json")
 if os.path.exists(extra):
     for k, v in json.load(open(extra)).items():
-        p, n = k.split("-m")
+        p, n = k.rsplit("-m", 1)
         DESC[(p, int(n))] = tuple(v)
 
 rows = []
-for (prop, n), d in sorted(DESC.items()):
+for (prop, n), d in sorted(DESC.items(), key=lambda kv: (kv[0][0].replace("r2-", "") + ("z" if kv[0][0].startswith("r2-") else ""), kv[0][1])):
     if not d: continue
     slug, what, needs = d
     src = f"/tmp/wt/{prop}"
     dst = f"/verif/seeded/{prop}-m{n}-{slug}"
+    tag = prop
+    prop = prop.replace("r2-", "")
     have_src = os.path.exists(f"{src}/mutant{n}.patch")
     if have_src:
         os.makedirs(dst, exist_ok=True)
@@ -50,7 +52,7 @@ for (prop, n), d in sorted(DESC.items()):
     if not os.path.exists(f"{dst}/patch.diff"): continue
     meta_path = f"{dst}/meta.json"
     meta = json.load(open(meta_path)) if os.path.exists(meta_path) else {}
-    val = f"/tmp/mt/validate/{prop}-m{n}.txt"
+    val = f"/tmp/mt/validate/{tag}-m{n}.txt"
     if os.path.exists(val):
         t = open(val).read()
         parts = re.split(r"^-- ", t, flags=re.M)
@@ -59,7 +61,7 @@ for (prop, n), d in sorted(DESC.items()):
             head, _, body = p.partition("\n")
             v[head.strip()] = [l.strip() for l in body.strip().splitlines()][:4]
         meta["validated_in_scratch_worktree"] = v
-    res = f"/tmp/mt/results/{prop}-m{n}.txt"
+    res = f"/tmp/mt/results/{tag}-m{n}.txt"
     if os.path.exists(res):
         t = open(res).read()
         det = {}
@@ -73,19 +75,19 @@ for (prop, n), d in sorted(DESC.items()):
         old = meta.get("checks_run", {})
         old.update(det)
         meta["checks_run"] = old
-    meta.update({"breaks_property": prop, "change": what, "needs_to_manifest": needs,
+    meta.update({"breaks_property": prop, "round": 2 if tag.startswith("r2-") else 1, "change": what, "needs_to_manifest": needs,
                  "source": "independent sub-agent given only the property text and a scratch worktree of /repo",
                  "how_checked": "tools/try_mutant_isolated.sh patch.diff <checks> (scratch worktree of /repo + scratch copy of the simulator built against it); tools/validate_mutant.sh patch.diff demo.rs"})
     caught = [c for c, r in meta.get("checks_run", {}).items() if r["exit"] == 1]
     meta["caught_by"] = caught
     json.dump(meta, open(meta_path, "w"), indent=1)
-    rows.append((prop, n, slug, what, needs, caught, meta.get("checks_run", {})))
+    rows.append((tag, n, slug, what, needs, caught, meta.get("checks_run", {}), prop))
 
 with open("/verif/seeded/README.md", "w") as f:
     f.write("# Seeded changes and the checks that catch them\n\nGenerated by tools/seeded_meta.py from seeded/*/meta.json. Every change compiles, passes the 213 unit tests, and comes with an independent demonstration (demo.rs) that fails with the change and passes without it.\n\n| seeded change | breaks | caught by (quick tier, violation classes) | needs to manifest |\n|---|---|---|---|\n")
-    for prop, n, slug, what, needs, caught, runs in rows:
+    for tag, n, slug, what, needs, caught, runs, prop in rows:
         c = "; ".join(f"{k}: {', '.join(sorted(set(runs[k]['classes']))[:3])}" for k in caught) or "**missed**"
         missed = [k for k, r in runs.items() if r["exit"] == 0]
         if missed: c += f" (not by {', '.join(missed)})"
-        f.write(f"| {prop}-m{n} {slug}: {what} | {prop} | {c} | {needs} |\n")
+        f.write(f"| {tag}-m{n} {slug}: {what} | {prop} | {c} | {needs} |\n")
 print(len(rows), "seeded changes assembled")
